@@ -17,7 +17,26 @@ mod gen;
 mod rng;
 mod vx;
 
+mod c01;
+mod c02;
+mod c03;
+mod c04;
+mod c05;
+mod c06;
+mod c07;
+mod c08;
+mod c09;
+mod c10;
+mod c11;
 mod c12;
+mod c13;
+mod c14;
+mod c15;
+mod c16;
+mod c17;
+mod c18;
+mod c19;
+mod c20;
 
 use ctx::{Ctx, Tier};
 
@@ -26,7 +45,26 @@ pub type GenFn = fn(&mut Ctx);
 
 pub fn prop_fns(prop: &str) -> Option<(GenFn, ExecFn)> {
     match prop {
+        "C01" => Some((c01::generate, c01::exec)),
+        "C02" => Some((c02::generate, c02::exec)),
+        "C03" => Some((c03::generate, c03::exec)),
+        "C04" => Some((c04::generate, c04::exec)),
+        "C05" => Some((c05::generate, c05::exec)),
+        "C06" => Some((c06::generate, c06::exec)),
+        "C07" => Some((c07::generate, c07::exec)),
+        "C08" => Some((c08::generate, c08::exec)),
+        "C09" => Some((c09::generate, c09::exec)),
+        "C10" => Some((c10::generate, c10::exec)),
+        "C11" => Some((c11::generate, c11::exec)),
         "C12" => Some((c12::generate, c12::exec)),
+        "C13" => Some((c13::generate, c13::exec)),
+        "C14" => Some((c14::generate, c14::exec)),
+        "C15" => Some((c15::generate, c15::exec)),
+        "C16" => Some((c16::generate, c16::exec)),
+        "C17" => Some((c17::generate, c17::exec)),
+        "C18" => Some((c18::generate, c18::exec)),
+        "C19" => Some((c19::generate, c19::exec)),
+        "C20" => Some((c20::generate, c20::exec)),
         _ => None,
     }
 }
